@@ -2,6 +2,8 @@ package main
 
 import (
 	"bytes"
+	"crypto/aes"
+	"crypto/cipher"
 	crand "crypto/rand"
 	"crypto/rsa"
 
@@ -297,6 +299,33 @@ func c02Type3(c *h.Ctx, n int, flips int) {
 				st3 = h.StNone
 			}
 			c.Case("type3:model-front-end", len(b) > 0, "fe_fin3", [][]byte{st3, b}, [][]byte{h.StOK})
+			// exact run of the model: the response key schedule is computed by the Coq HKDF, AES-GCM by the Go standard
+			// library, the RSA finalization by circl through the request state, PSS by crypto/rsa
+			secret, encapEnc := st.VerifResponseSecrets()
+			bsOpt, sigOpt, pss := []byte{0}, []byte{0}, false
+			if len(b) >= 16 {
+				keys := c.Model("t3_response_keys", secret, encapEnc, b[:16])
+				if blk, err := aes.NewCipher(keys[0]); err == nil {
+					if gcm, err := cipher.NewGCM(blk); err == nil {
+						if bs, err := gcm.Open(nil, keys[1], b[16:], nil); err == nil {
+							bsOpt = cat([]byte{1}, bs)
+							h.Protect(func() {
+								if sig, err := st.VerifFinalizeBlindSignature(bs); err == nil {
+									sigOpt = cat([]byte{1}, sig)
+									if len(sig) >= 256 {
+										pss = pssOK(&env.key.PublicKey, input, sig[:256])
+									}
+								}
+							})
+						}
+					}
+				}
+			}
+			implOuts := [][]byte{st3}
+			if !o.pan && o.err == nil {
+				implOuts = append(implOuts, o.toks[0].Marshal())
+			}
+			c.Case("type3:model-exact", true, "fin3_full", [][]byte{input, encapEnc, b, bsOpt, sigOpt, flagB(pss)}, implOuts)
 			return o
 		}
 		det := func(k string, v any) map[string]any { return map[string]any{"type": 3, k: v} }
